@@ -22,6 +22,11 @@ class Q:
         self.solver_s = 0.0
         self.solver = z3.Solver()
         self.solver.set("timeout", 120000)
+        self.cross_check = False
+        self.cross_total = 0
+        self.cross_agree = 0
+        self.cross_disagreements = []
+        self.tmpdir = None
 
     def check(self, *conds, domain=None):
         self.queries += 1
@@ -33,9 +38,39 @@ class Q:
             self.solver.add(c)
         r = self.solver.check()
         model = self.solver.model() if r == z3.sat else None
+        if self.cross_check and r in (z3.sat, z3.unsat):
+            self._cross(r)
         self.solver.pop()
         self.solver_s += time.time() - t0
         return r, model
+
+    def _cross(self, r):
+        """thorough tier: the same query is decided by cvc5 (independent SMT solver); a
+        disagreement or an `(error` line makes the run inconclusive"""
+        import subprocess
+        import tempfile
+        txt = self.solver.to_smt2()
+        with tempfile.NamedTemporaryFile("w", suffix=".smt2", delete=False, dir=self.tmpdir) as fh:
+            fh.write("(set-logic ALL)\n" + txt)
+            path = fh.name
+        try:
+            p = subprocess.run(["cvc5", "--lang", "smt2", "--tlimit=60000", path], stdout=subprocess.PIPE,
+                               stderr=subprocess.STDOUT, text=True, timeout=90)
+            out = p.stdout.strip().splitlines()
+            verdict = out[0].strip() if out else ""
+        except Exception as e:  # noqa: BLE001
+            verdict = f"error: {e}"
+        finally:
+            try:
+                import os
+                os.remove(path)
+            except OSError:
+                pass
+        self.cross_total += 1
+        if verdict == str(r):
+            self.cross_agree += 1
+        else:
+            self.cross_disagreements.append(f"z3={r} cvc5={verdict[:80]}")
 
 
 def events(E, pattern, argpat=None):
